@@ -4,6 +4,8 @@ session's requests through that ONE transport over an httpx.MockTransport and re
 stdin : JSON list of jobs {"id", "cfg"} - cfg is TransportCore!Concrete(sc):
         defaults / params / cookies : [[name, value], ...] (empty list => argument not passed / None),
         requests : [[[name, value], ...], ...] per-request headers of each request of the session (empty => no headers=),
+        reqargs : [{params, cookies, body, path}] the other arguments of each request,
+        sched : [] (requests one after the other) or the interleaving of start / resume events to reproduce (see run_job),
         plugins : [{kind, loc, name, val, hdrs, refresh, rets, ...}], tree (auth nesting, see build_auth), bearer ("" => not passed), body ("" => none);
         rets = what the refresh callback returns at its i-th call: a token, "<same>" (the token it was shown), "" or
         "<none>" (None)
@@ -34,13 +36,13 @@ from pyopenapi_gen.core.auth.base import CompositeAuth  # noqa: E402
 from pyopenapi_gen.core.auth.plugins import ApiKeyAuth, BearerAuth, HeadersAuth, OAuth2Auth  # noqa: E402
 from pyopenapi_gen.core.http_transport import HttpxTransport  # noqa: E402
 
-_captured: list[httpx.Request] = []
+_captured: list = []  # (asyncio task that sent it, httpx.Request)
 # headers httpx itself adds to every request: not part of what C17 speaks about, dropped to keep the traces small
 HTTPX_OWN = {"host", "accept", "accept-encoding", "connection", "user-agent", "content-length", "content-type"}
 
 
 def _handler(request: httpx.Request) -> httpx.Response:
-    _captured.append(request)
+    _captured.append((asyncio.current_task(), request))
     return httpx.Response(200, json={})
 
 
@@ -59,7 +61,18 @@ def _txt(v) -> str:
     return "<none>" if v is None else str(v)
 
 
-def build_plugin(p: dict, calls: list[str]):
+class Session:
+    """What the harness knows about the requests of one job: which request is being started (callback calls and
+    captured requests are attributed through it / through the task), the callback calls made so far."""
+
+    def __init__(self, suspend: bool):
+        self.suspend = suspend  # the refresh callback waits until the harness resumes that request
+        self.current = 0
+        self.calls: list[dict] = []  # {"shown", "req", "fut"}
+        self.entered: set[int] = set()
+
+
+def build_plugin(p: dict, sess: Session):
     k = p["kind"]
     if k == "bearer":
         return BearerAuth(p["val"])
@@ -70,12 +83,17 @@ def build_plugin(p: dict, calls: list[str]):
     if k == "oauth2":
         if p["refresh"]:
             rets = list(p["rets"])
-            ncalls = [0]
 
             async def cb(current):
-                calls.append(_txt(current))
-                r = rets[min(ncalls[0], len(rets) - 1)]
-                ncalls[0] += 1
+                n = len(sess.calls)
+                rec = {"shown": _txt(current), "req": sess.current, "fut": None}
+                sess.calls.append(rec)
+                if sess.suspend:
+                    # suspend for real: the harness resolves this future when the behaviour says "resume <request>"
+                    rec["fut"] = asyncio.get_running_loop().create_future()
+                    sess.entered.add(rec["req"])
+                    await rec["fut"]
+                r = rets[min(n, len(rets) - 1)]
                 if r == "<same>":
                     return current
                 if r == "<none>":
@@ -87,10 +105,10 @@ def build_plugin(p: dict, calls: list[str]):
     raise ValueError(f"unknown plug-in kind {k}")
 
 
-def build_auth(cfg: dict, calls: list[str]):
+def build_auth(cfg: dict, sess: Session):
     """cfg["tree"] is a token list over "(" ")" "*": a parenthesised group is a CompositeAuth of its members, "*" is the
     next plug-in of cfg["plugins"]; [] = no auth=, ["*"] = the bare plug-in."""
-    ps = [build_plugin(p, calls) for p in cfg["plugins"]]
+    ps = [build_plugin(p, sess) for p in cfg["plugins"]]
     toks = list(cfg["tree"])
     if not toks:
         return None
@@ -130,74 +148,128 @@ def parse_cookie_header(values: list[str]) -> list[list[str]]:
 
 
 def _empty(err: str) -> dict:
-    return {"headers": [], "query": [], "cookies": [], "body": "", "refresh": [], "defaults": [], "err": err}
+    return {"headers": [], "query": [], "cookies": [], "body": "", "path": "", "refresh": [], "defaults": [], "err": err}
+
+
+def _observe(r: httpx.Request) -> dict:
+    obs = _empty("none")
+    cookie_values = []
+    for raw, val in r.headers.raw:
+        n = raw.decode("latin-1")
+        v = val.decode("latin-1")
+        if n.lower() == "cookie":
+            cookie_values.append(v)
+        elif n.lower() not in HTTPX_OWN:
+            obs["headers"].append([n, n.lower(), v])
+    obs["query"] = [[k, v] for k, v in r.url.params.multi_items()]
+    obs["cookies"] = parse_cookie_header(cookie_values)
+    obs["body"] = r.content.decode("latin-1")
+    obs["path"] = r.url.path
+    return obs
+
+
+MAX_TURNS = 2000  # event-loop turns granted to a coroutine to reach its next suspension point / its end (no clock)
 
 
 async def run_job(job: dict) -> dict:
+    """One transport, the session's requests.  cfg["sched"] == []: one after the other.  Otherwise the requests are in
+    flight together and cfg["sched"] is the interleaving to reproduce: {"k": "start", "r": n} creates the task of
+    request n and lets it run until it suspends inside the refresh callback (or ends); {"k": "resume", "r": n} lets the
+    callback of request n answer and runs that request to its end.  Nothing else is runnable in between (every other
+    request waits for its own future), so the interleaving is exactly the prescribed one."""
     cfg = job["cfg"]
-    calls: list[str] = []
-    tkw: dict = {"base_url": "http://h.test"}
+    n = len(cfg["requests"])
+    sched = cfg.get("sched") or []
+    sess = Session(suspend=bool(sched))
+    events = sched or [{"k": "start", "r": i + 1} for i in range(n)]
     defaults = None
-    out: list[dict] = []
+    out: dict[int, dict] = {}
+    tasks: dict[int, asyncio.Task] = {}
     transport = None
+    _captured.clear()
+
+    def finish(r: int) -> None:
+        """request r's task has ended: turn what it sent into its observation"""
+        t = tasks[r]
+        if t.cancelled():
+            out[r] = _empty("cancelled")
+            return
+        if t.exception() is not None:
+            out[r] = _empty(type(t.exception()).__name__)
+            out[r]["detail"] = str(t.exception())[:200]
+            return
+        mine = [q for (task, q) in _captured if task is t]
+        if len(mine) != 1:
+            out[r] = _empty(f"captured {len(mine)} requests")
+            return
+        obs = _observe(mine[0])
+        obs["refresh"] = [c["shown"] for c in sess.calls if c["req"] == r]
+        obs["defaults"] = [[k, _txt(v)] for k, v in (defaults or {}).items()]
+        out[r] = obs
+
     try:
-        auth = build_auth(cfg, calls)
+        tkw: dict = {"base_url": "http://h.test"}
+        auth = build_auth(cfg, sess)
         if auth is not None:
             tkw["auth"] = auth
         if cfg["bearer"]:
             tkw["bearer_token"] = cfg["bearer"]
         if cfg["defaults"]:
-            defaults = {n: v for n, v in cfg["defaults"]}
+            defaults = {k: v for k, v in cfg["defaults"]}
             tkw["default_headers"] = defaults
         transport = HttpxTransport(**tkw)
-        for req_headers in cfg["requests"]:
-            rkw: dict = {}
-            if req_headers:
-                rkw["headers"] = {n: v for n, v in req_headers}
-            if cfg["params"]:
-                rkw["params"] = {n: v for n, v in cfg["params"]}
-            if cfg["cookies"]:
-                rkw["cookies"] = {n: v for n, v in cfg["cookies"]}
-            if cfg["body"]:
-                rkw["content"] = cfg["body"].encode()
-            _captured.clear()
-            shown_before = len(calls)
-            obs = _empty("none")
-            try:
-                await transport.request("POST", "/p", **rkw)
-                if len(_captured) != 1:
-                    obs["err"] = f"captured {len(_captured)} requests"
-                else:
-                    r = _captured[0]
-                    cookie_values = []
-                    for raw, val in r.headers.raw:
-                        n = raw.decode("latin-1")
-                        v = val.decode("latin-1")
-                        if n.lower() == "cookie":
-                            cookie_values.append(v)
-                        elif n.lower() not in HTTPX_OWN:
-                            obs["headers"].append([n, n.lower(), v])
-                    obs["query"] = [[k, v] for k, v in r.url.params.multi_items()]
-                    obs["cookies"] = parse_cookie_header(cookie_values)
-                    obs["body"] = r.content.decode("latin-1")
-                    obs["refresh"] = list(calls[shown_before:])
-                    obs["defaults"] = [[n, _txt(v)] for n, v in (defaults or {}).items()]
-            except Exception as e:  # noqa: BLE001 - the exception type is the observation
-                obs = _empty(type(e).__name__)
-                obs["detail"] = str(e)[:200]
-            out.append(obs)
+        for ev in events:
+            r = ev["r"]
+            if ev["k"] == "start":
+                ra = cfg["reqargs"][r - 1]
+                rkw: dict = {}
+                if cfg["requests"][r - 1]:
+                    rkw["headers"] = {k: v for k, v in cfg["requests"][r - 1]}
+                if ra["params"]:
+                    rkw["params"] = {k: v for k, v in ra["params"]}
+                if ra["cookies"]:
+                    rkw["cookies"] = {k: v for k, v in ra["cookies"]}
+                if ra["body"]:
+                    rkw["content"] = ra["body"].encode()
+                sess.current = r
+                tasks[r] = asyncio.ensure_future(transport.request("POST", ra["path"], **rkw))
+                for _ in range(MAX_TURNS):
+                    if tasks[r].done() or r in sess.entered:
+                        break
+                    await asyncio.sleep(0)
+            else:
+                rec = next((c for c in sess.calls if c["req"] == r and c["fut"] is not None and not c["fut"].done()), None)
+                if rec is None or r not in tasks:
+                    out[r] = _empty("resume-without-suspension")
+                    continue
+                rec["fut"].set_result(None)
+                for _ in range(MAX_TURNS):
+                    if tasks[r].done():
+                        break
+                    await asyncio.sleep(0)
+            if r in tasks and tasks[r].done() and r not in out:
+                finish(r)
     except Exception as e:  # noqa: BLE001
-        while len(out) < len(cfg["requests"]):
-            o = _empty(type(e).__name__)
-            o["detail"] = str(e)[:200]
-            out.append(o)
+        for i in range(1, n + 1):
+            if i not in out:
+                out[i] = _empty(type(e).__name__)
+                out[i]["detail"] = str(e)[:200]
     finally:
+        for r, t in tasks.items():
+            if not t.done():
+                t.cancel()
+                out.setdefault(r, _empty("not-sent"))
+        for t in tasks.values():
+            try:
+                await t
+            except BaseException:  # noqa: BLE001
+                pass
         if transport is not None:
             try:
                 await transport.close()
             except Exception:  # noqa: BLE001
                 pass
-    return {"id": job["id"], "obs": out}
+    return {"id": job["id"], "obs": [out.get(i, _empty("not-sent")) for i in range(1, n + 1)]}
 
 
 async def main() -> None:
